@@ -36,7 +36,7 @@ fn dummy(id: i64) -> Arc<Single> {
 fn run_case(case: &Value) -> Value {
     let tour_desc = case["tour"].as_array().unwrap();
     let tour_singles: Vec<Arc<Single>> = tour_desc.iter().map(|a| Arc::new(single_of_act(a))).collect();
-    let cand: Job = Job::Single(Arc::new(single_of(&case["job"])));
+    let cand: Job = job_of(&case["job"]);
     let others = case["others"].as_array().cloned().unwrap_or_default();
     let other_singles: Vec<Vec<Arc<Single>>> = others
         .iter()
@@ -90,8 +90,17 @@ fn run_case(case: &Value) -> Value {
         match eval_job_insertion_in_route(&ctx, &eval_ctx, route_ctx, InsertionPosition::Any, InsertionResult::make_failure()) {
             InsertionResult::Success(s) => {
                 let (a, idx) = &s.activities[0];
+                let acts: Vec<Value> = s
+                    .activities
+                    .iter()
+                    .map(|(a, idx)| {
+                        json!({"index": idx, "job": a.job.as_ref().and_then(|s| s.dimens.get_job_id().cloned()), "place": a.place.idx, "loc": a.place.location,
+                               "svc": t_out(a.place.duration), "tws": t_out(a.place.time.start), "twe": t_out(a.place.time.end)})
+                    })
+                    .collect();
                 json!({"ok": true, "cost": s.cost.iter().map(t_out).collect::<Vec<_>>(), "index": idx, "place": a.place.idx,
-                       "loc": a.place.location, "svc": t_out(a.place.duration), "tws": t_out(a.place.time.start), "twe": t_out(a.place.time.end)})
+                       "loc": a.place.location, "svc": t_out(a.place.duration), "tws": t_out(a.place.time.start), "twe": t_out(a.place.time.end),
+                       "acts": acts})
             }
             InsertionResult::Failure(f) => json!({"ok": false, "code": f.constraint.0, "stopped": f.stopped}),
         }
@@ -113,8 +122,14 @@ fn run_case(case: &Value) -> Value {
         .map(dump_schedule);
     let target_before =
         ctx.solution.routes.iter().find(|r| r.route().actor.vehicle.dimens.get_vehicle_id().map_or(false, |id| id == "v0")).map(dump_schedule);
+    let after_jobs: Option<Vec<Option<String>>> = with
+        .solution
+        .routes
+        .iter()
+        .find(|r| r.route().actor.vehicle.dimens.get_vehicle_id().map_or(false, |id| id == "v0"))
+        .map(|r| r.route().tour.all_activities().map(|a| a.job.as_ref().and_then(|s| s.dimens.get_job_id().cloned())).collect());
     json!({"quote": quote, "fit_without": fit_without, "fit_with": fit_with, "inserted": inserted,
-           "before": target_before, "after": target_after,
+           "before": target_before, "after": target_after, "after_jobs": after_jobs,
            "unassigned_without": without.solution.unassigned.len(), "unassigned_with": with.solution.unassigned.len(),
            "routes_without": without.solution.routes.len(), "routes_with": with.solution.routes.len()})
 }
